@@ -1,0 +1,145 @@
+//go:build verif
+
+package verifier
+
+import "sort"
+
+// Verification hook (add-only, compiled with -tags verif): a canonical,
+// order-independent dump of the internal state of a Graph.  Every identifier
+// in the dump is a raw fingerprint string (certificate SHA-256 for edges,
+// SPKISubjectFingerprint for nodes); every collection that comes out of a Go
+// map is sorted, the two slices whose order is significant for the code
+// (g.nodes and g.nodesBySubject[...]) are kept in their order.
+
+// ZVEdgeDump describes one GraphEdge.
+type ZVEdgeDump struct {
+	FP        string // certificate FingerprintSHA256 (the key of the edge set)
+	CertFP    string // edge.Certificate.FingerprintSHA256 (must equal FP)
+	HasIssuer bool
+	Issuer    string // SPKISubjectFingerprint of edge.issuer, "" if nil
+	HasChild  bool
+	Child     string // SPKISubjectFingerprint of edge.child
+	Root      bool
+}
+
+// ZVAdj is one entry of parentsBySubjectAndKey / childrenBySubjectAndKey.
+type ZVAdj struct {
+	Key   string   // subjectAndKeyFingerprint (map key)
+	Edges []string // certificate fingerprints, sorted
+}
+
+// ZVNodeDump describes one GraphNode.
+type ZVNodeDump struct {
+	MapKey     string // key under which the node is stored in nodesBySubjectAndKey ("" if only in g.nodes)
+	SKFP       string // node.SubjectAndKey.Fingerprint
+	RawSubject string
+	RawSPKI    string
+	InNodes    int // number of occurrences in g.nodes
+	Parents    []ZVAdj
+	Children   []ZVAdj
+}
+
+// ZVMissing is one entry of missingIssuerNode.
+type ZVMissing struct {
+	RawIssuer string
+	Edges     []string
+}
+
+// ZVSubjectIndex is one entry of nodesBySubject (slice order preserved).
+type ZVSubjectIndex struct {
+	RawSubject string
+	Nodes      []string // SKFPs in slice order
+}
+
+// ZVGraphDump is the whole state.
+type ZVGraphDump struct {
+	NodeOrder []string // SKFPs of g.nodes in slice order
+	Nodes     []ZVNodeDump
+	Edges     []ZVEdgeDump
+	Missing   []ZVMissing
+	BySubject []ZVSubjectIndex
+}
+
+func zvAdj(m map[subjectAndKeyFingerprint]*GraphEdgeSet) (out []ZVAdj) {
+	for k, es := range m {
+		a := ZVAdj{Key: string(k)}
+		if es != nil {
+			for fp := range es.edges {
+				a.Edges = append(a.Edges, fp)
+			}
+		}
+		sort.Strings(a.Edges)
+		out = append(out, a)
+	}
+	sort.Slice(out, func(i, j int) bool { return out[i].Key < out[j].Key })
+	return
+}
+
+// ZVDump returns the canonical dump of g.
+func (g *Graph) ZVDump() (d ZVGraphDump) {
+	count := map[*GraphNode]int{}
+	for _, n := range g.nodes {
+		d.NodeOrder = append(d.NodeOrder, string(n.SubjectAndKey.Fingerprint))
+		count[n]++
+	}
+	seen := map[*GraphNode]bool{}
+	dumpNode := func(key string, n *GraphNode) {
+		seen[n] = true
+		d.Nodes = append(d.Nodes, ZVNodeDump{
+			MapKey:     key,
+			SKFP:       string(n.SubjectAndKey.Fingerprint),
+			RawSubject: string(n.SubjectAndKey.RawSubject),
+			RawSPKI:    string(n.SubjectAndKey.RawSubjectPublicKeyInfo),
+			InNodes:    count[n],
+			Parents:    zvAdj(n.parentsBySubjectAndKey),
+			Children:   zvAdj(n.childrenBySubjectAndKey),
+		})
+	}
+	for k, n := range g.nodesBySubjectAndKey {
+		dumpNode(string(k), n)
+	}
+	for _, n := range g.nodes {
+		if !seen[n] {
+			dumpNode("", n)
+		}
+	}
+	sort.Slice(d.Nodes, func(i, j int) bool {
+		if d.Nodes[i].SKFP != d.Nodes[j].SKFP {
+			return d.Nodes[i].SKFP < d.Nodes[j].SKFP
+		}
+		return d.Nodes[i].MapKey < d.Nodes[j].MapKey
+	})
+	for fp, e := range g.edges.edges {
+		ed := ZVEdgeDump{FP: fp, CertFP: string(e.Certificate.FingerprintSHA256), Root: e.root}
+		if e.issuer != nil {
+			ed.HasIssuer = true
+			ed.Issuer = string(e.issuer.SubjectAndKey.Fingerprint)
+		}
+		if e.child != nil {
+			ed.HasChild = true
+			ed.Child = string(e.child.SubjectAndKey.Fingerprint)
+		}
+		d.Edges = append(d.Edges, ed)
+	}
+	sort.Slice(d.Edges, func(i, j int) bool { return d.Edges[i].FP < d.Edges[j].FP })
+	for iss, es := range g.missingIssuerNode {
+		m := ZVMissing{RawIssuer: iss}
+		if es != nil {
+			for fp := range es.edges {
+				m.Edges = append(m.Edges, fp)
+			}
+		}
+		sort.Strings(m.Edges)
+		d.Missing = append(d.Missing, m)
+	}
+	sort.Slice(d.Missing, func(i, j int) bool { return d.Missing[i].RawIssuer < d.Missing[j].RawIssuer })
+	for s, ns := range g.nodesBySubject {
+		x := ZVSubjectIndex{RawSubject: s}
+		for _, n := range ns {
+			x.Nodes = append(x.Nodes, string(n.SubjectAndKey.Fingerprint))
+		}
+		d.BySubject = append(d.BySubject, x)
+	}
+	sort.Slice(d.BySubject, func(i, j int) bool { return d.BySubject[i].RawSubject < d.BySubject[j].RawSubject })
+	return
+}
